@@ -9,7 +9,7 @@
    databases, tables, rows, columns, on nesting depth or on string length. *)
 Require Import PG.Base.Bytes PG.Base.GoSlice PG.Base.Value.
 Require Import PG.C15.Lib PG.C15.Types PG.C15.Model PG.C15.Spec.
-Require Import PG.C15.SearchProofs PG.C15.SecretsProofs PG.C15.MainProofs.
+Require Import PG.C15.SearchProofs PG.C15.SecretsProofs PG.C15.MainProofs PG.C15.Wrappers.
 From Coq Require Import Permutation String.
 
 (* ---------------------------------------------------------------------------------------------- *)
@@ -235,3 +235,36 @@ Proof.
   split; [vm_compute; reflexivity|].
   eexists _, _. repeat split; try (left; reflexivity); try reflexivity; try lia.
 Qed.
+
+(* ---------------------------------------------------------------------------------------------- *)
+(* The convenience entry points (search.go:194-230, secrets.go:129-137) inherit the statements above. *)
+
+(* regexp.QuoteMeta (as modelled; the model is compared with Go's function on every run): the quoted text is an escaped
+   literal - no unescaped metacharacter - that reads back to the original text, at most twice as long *)
+Theorem C15_quote_meta : forall s,
+  unquote (QuoteMeta s) = Some s /\ (List.length s <= List.length (QuoteMeta s) <= 2 * List.length s)%nat.
+Proof. intros. split; [apply unquote_QuoteMeta|apply QuoteMeta_length]. Qed.
+Print Assumptions C15_quote_meta.
+
+(* QuickSearch reports exactly the cells matching the quoted literal case-insensitively, each once, row attached, uncut *)
+Theorem C15_quick_search : forall regex compile matches show DumpDataDir dir d p re,
+  DumpDataDir dir = Some d -> compile (ci_prefix_str ++ QuoteMeta p) = Some re ->
+  QuickSearch regex compile matches show DumpDataDir dir p = inr (all_hits regex matches show re (quick_opts p) d) /\
+  (forall h, In h (all_hits regex matches show re (quick_opts p) d) <->
+     exists dbn tn i c r v, cell_at d dbn tn i c r v /\ Matches regex matches show re v /\
+                            h = {| sr_database := dbn; sr_table := tn; sr_column := c; sr_rownum := i;
+                                   sr_value := row_get r c; sr_row := Some r |}).
+Proof. exact QuickSearch_exact. Qed.
+Print Assumptions C15_quick_search.
+
+Example C15_quick_search_ex :
+  QuickSearch _ Toy.compile Toy.matches Toy.show (fun _ => Some Toy.dump) [] (Toy.B "bob") <> inr [].
+Proof. vm_compute. discriminate. Qed.
+
+(* ScanForSecrets / SearchSecrets: the findings of the dump of that directory, coordinates unchanged *)
+Theorem C15_secret_wrappers : forall dres show DumpDataDir (dets : list (Detector dres)) dir d,
+  DumpDataDir dir = Some d ->
+  ScanForSecrets dres show DumpDataDir dets dir = Some (Ok (expected_scan dres show dets d)) /\
+  SearchSecrets dres show DumpDataDir dets dir = Some (Ok (map (secret_result dres) (expected_scan dres show dets d))).
+Proof. intros. split; [apply ScanForSecrets_spec|apply SearchSecrets_spec]; assumption. Qed.
+Print Assumptions C15_secret_wrappers.
